@@ -74,6 +74,12 @@ struct RadixEngine : Engine {
 			uint64_t B = rng.next();
 			switch (rng.below(5)) { case 0: B = 0; break; case 1: B = ~0ull; break; case 2: B &= 0xFFFF; break; default: break; }
 			U.push_back(B);
+			if (rng.chance(1, 6)) { // a completely full leaf (all 16 indices) ...
+				for (uint64_t v = 0; v < 16; v++) U.push_back((B & ~0xFull) | v);
+			} else if (rng.chance(1, 6)) { // ... or a completely full inner node: all 16 values of one nibble position
+				int pos = (int)rng.below(15);
+				for (uint64_t v = 0; v < 16; v++) U.push_back(nib(B, pos, v));
+			}
 			int m = 1 + (int)rng.below(5);
 			for (int i = 0; i < m; i++) {
 				switch (rng.below(6)) {
